@@ -180,7 +180,7 @@ theorem openElement_ns {b : Builder} {frames : List (List (Str × Str))} (hr : R
       (((declIds b.env (declsOf attrs)).1.internNamespace u).1.internName loc.text
         ((declIds b.env (declsOf attrs)).1.internNamespace u).2).1 :=
     (internNamespace_app _ u).trans (internName_app _ loc.text _)
-  obtain ⟨hw1, hw2, hw3, hw4⟩ := hw
+  obtain ⟨hw1, _, hw2, hw3, hw4⟩ := hw
   obtain ⟨st', hst, he, hk, hs⟩ := addAttributes_ns (declsOf attrs :: frames)
     (b.curPath ++ [b.cur.rkids.length]) (ordinary attrs)
     { env := (((declIds b.env (declsOf attrs)).1.internNamespace u).1.internName loc.text
